@@ -48,7 +48,8 @@ type srvSUT struct {
 
 	mu      sync.Mutex
 	seen    map[int]factSet // connection -> "c:<key>" of every pushRequest its stream loop received, "f:<key>" if that request was forced
-	vers    map[int][]uint64 // connection -> snapshot versions (PushContext.PushVersion counter) of those requests, in order
+	vers    map[int][]uint64 // connection -> snapshot versions (PushContext.PushVersion counter) of those requests, in order (this window)
+	lastVer map[int]uint64   // connection -> version of its last push before this window
 	shared  map[*model.PushRequest]reqSnap // every request object seen by a stream loop, as it read at first sight
 	nupd    int                            // updates issued so far: every update gets keys of its own (name~<n>)
 	forcedK factSet                        // keys of forced updates
@@ -186,7 +187,7 @@ func (s deltaSide) Recv() (*discovery.DeltaDiscoveryRequest, error) {
 }
 
 func newSrvSUT() *srvSUT {
-	s := &srvSUT{f: &srvFailer{}, byID: map[string]*srvConn{}, seen: map[int]factSet{}, vers: map[int][]uint64{},
+	s := &srvSUT{f: &srvFailer{}, byID: map[string]*srvConn{}, seen: map[int]factSet{}, vers: map[int][]uint64{}, lastVer: map[int]uint64{},
 		shared: map[*model.PushRequest]reqSnap{}, forcedK: sets.New[string](), gateHit: make(chan struct{}, 1), gateGo: make(chan struct{})}
 	s.fs = xdsfake.NewFakeDiscoveryServer(s.f, xdsfake.FakeOptions{DebounceTime: 3 * time.Millisecond})
 	quiet.Silence()
@@ -208,7 +209,11 @@ func newSrvSUT() *srvSUT {
 			}
 			// "uses the newest snapshot": versions a connection is pushed with never go back
 			v := pushVersionOf(req.Push)
-			if vs := s.vers[c.idx]; len(vs) > 0 && v < vs[len(vs)-1] {
+			prev := s.lastVer[c.idx]
+			if vs := s.vers[c.idx]; len(vs) > 0 {
+				prev = vs[len(vs)-1]
+			}
+			if v < prev {
 				s.fail("push-with-older-snapshot-than-the-previous-push-of-the-connection")
 			}
 			s.vers[c.idx] = append(s.vers[c.idx], v)
@@ -464,6 +469,22 @@ func (s *srvSUT) judge() {
 	}
 }
 
+// newWindow: the server is at rest and has been judged; from here on only what is accepted from now
+// on is expected and only what arrives from now on counts as seen.
+func (s *srvSUT) newWindow() {
+	s.mu.Lock()
+	defer s.mu.Unlock()
+	s.forcedK = sets.New[string]()
+	for i, c := range s.conns {
+		c.expected = sets.New[string]()
+		s.seen[i] = sets.New[string]()
+		if vs := s.vers[i]; len(vs) > 0 {
+			s.lastVer[i] = vs[len(vs)-1]
+		}
+		s.vers[i] = nil
+	}
+}
+
 func (s *srvSUT) conn(t string) *srvConn {
 	i, err := strconv.Atoi(t)
 	if err != nil || i < 0 || i >= len(s.conns) {
@@ -528,9 +549,9 @@ func (s *srvSUT) apply(f []string) (out string) {
 		keys := sets.New[model.ConfigKey]()
 		facts := sets.New[string]()
 		for _, k := range wire.DecList(f[2]) {
-			// every update names keys of its own, so that each notification is an occurrence that has to
-			// arrive - not a key set that an earlier delivery could satisfy
-			ck := parseConfigKey(k + "~" + strconv.Itoa(s.nupd))
+			// occurrences, not accumulated key sets: what is expected and what was seen is counted per sync
+			// window (both are emptied at every sync), and the generator gives most updates names of their own
+			ck := parseConfigKey(k)
 			keys.Insert(ck)
 			facts.Insert("c:" + showConfigKey(ck))
 			if forced {
@@ -606,7 +627,9 @@ func (s *srvSUT) apply(f []string) (out string) {
 			return s.summary() + " UNSETTLED"
 		}
 		s.judge()
-		return s.summary()
+		sum := s.summary()
+		s.newWindow()
+		return sum
 	case "end":
 		if s.ended {
 			return "bad-op"
@@ -658,11 +681,26 @@ func genServerCase(r *wire.Rng, c int, out *wire.Out) {
 	n := 0
 	kind := func() string { return wire.Pick(r, []string{"sotw", "delta"}) }
 	alive := []int{}
+	nupd := 0
+	var lastKeys []string
 	upd := func(forced bool) {
-		ks := wire.Subset(r, srvKeys, 1, 3)
-		if len(ks) == 0 {
-			ks = []string{wire.Pick(r, srvKeys)}
+		var ks []string
+		if lastKeys != nil && r.Chance(1, 3) {
+			// the same keys again (a config changed twice): this notification must arrive as well
+			ks = lastKeys
+			if r.Chance(1, 2) {
+				forced = false
+			}
+		} else {
+			for _, k := range wire.Subset(r, srvKeys, 1, 3) {
+				ks = append(ks, k+strconv.Itoa(nupd)) // names of its own
+			}
+			if len(ks) == 0 {
+				ks = []string{wire.Pick(r, srvKeys) + strconv.Itoa(nupd)}
+			}
 		}
+		nupd++
+		lastKeys = ks
 		out.Line("update", wire.B(forced), wire.EncList(ks))
 	}
 	for i, k := 0, 1+r.Intn(3); i < k; i++ {
@@ -677,6 +715,11 @@ func genServerCase(r *wire.Rng, c int, out *wire.Out) {
 				upd(r.Chance(1, 2))
 			}
 			out.Line("sync")
+			if lastKeys != nil && r.Chance(1, 3) {
+				// the very same notification again, in a window of its own
+				out.Line("update", "0", wire.EncList(lastKeys))
+				out.Line("sync")
+			}
 		case 2: // a connection registered in the middle of its initialisation must not miss the push
 			out.Line("sync")
 			out.Line("connheld", strconv.Itoa(n), kind())
